@@ -448,6 +448,9 @@ func BuildJoin(query *Query, joinExpr *sqlparser.JoinTableExpr) error {
 	if err != nil {
 		return err
 	}
+	if joinExpr.Condition == nil {
+		return UNSUPPORTED_CASE.Extend(fmt.Sprintf("%s needs an ON or USING condition", joinExpr.Join.ToString()))
+	}
 	if joinExpr.Condition.On == nil {
 		expr := new(sqlparser.AndExpr)
 		expr.Left = sqlparser.BoolVal(true)
